@@ -3,6 +3,7 @@ import XalanModel.C04.Spec
 import XalanModel.C04.CommentPI
 import XalanModel.C04.Indent
 import XalanModel.C04.DocReader
+import XalanModel.C04.IndentTextProofs
 import Driver.Util
 /-
 xm_c04: replays SAX event scripts on the Lean model of FormatterToXMLUnicode + writers + buffers.
@@ -73,7 +74,7 @@ def parseEvent (w : String) : Option Event :=
 def hexU (l : List Nat) : String := hexOfUnits (Spec.utf16Encode l)
 
 mutual
-/-- canonical events of a tree read by `Spec.readDoc` (same tokens as the Xerces re-parse of the harness) -/
+/-- canonical events of a tree read by `Spec.readDocument` (same tokens as the Xerces re-parse of the harness) -/
 def canonNode : XNode → List String
   | .elem n a kids =>
     [":".intercalate (("s:" ++ hexU n) :: a.map fun p => hexU p.1 ++ "=" ++ hexU p.2)]
@@ -94,9 +95,28 @@ def readReply (ver : String) (hexUnits : String) : String :=
     match Spec.utf16Decode units with
     | none => "none"
     | some chars =>
-      match Spec.readDoc v chars with
+      match Spec.readDocument v chars with
       | some t => " ".intercalate ("tree" :: canonNode t)
       | none => "none"
+  | _, _ => "bad"
+
+/-- an event in the request syntax (inverse of `parseEvent`) -/
+def printEvent : Event → String
+  | .startElement n a => ":".intercalate (("s:" ++ hexOfUnits n) :: a.map fun p => hexOfUnits p.1 ++ "=" ++ hexOfUnits p.2)
+  | .endElement n => "e:" ++ hexOfUnits n
+  | .characters buf len =>
+    "t:" ++ hexOfUnits (buf.take len) ++ (if buf.drop len = [0] then "" else ":" ++ hexOfUnits (buf.drop len))
+  | .cdata buf len =>
+    "c:" ++ hexOfUnits (buf.take len) ++ (if buf.drop len = [0] then "" else ":" ++ hexOfUnits (buf.drop len))
+  | .charactersRaw s => "r:" ++ hexOfUnits s
+  | .comment s => "m:" ++ hexOfUnits s
+  | .pi t d => "p:" ++ hexOfUnits t ++ ":" ++ hexOfUnits d
+
+/-- `filter <amount> <event>...`: the event sequence behind the indentation filter of `indent_is_whitespace_text`
+(`decorEvents`), to be given to the *plain* real serializer -/
+def filterReply (amount : String) (evs : List String) : String :=
+  match amount.toNat?, evs.mapM parseEvent with
+  | some n, some events => " ".intercalate ("events" :: (decorEvents events [] { on := true, amount := n }).map printEvent)
   | _, _ => "bad"
 
 def errName : Err → String
@@ -187,6 +207,7 @@ def step (s : Unit) : List String → Unit × String
   | "docx" :: _ :: _ => (s, "skip")
   | "docfixed" :: "U" :: enc :: ver :: evs => (s, runDoc {} CDataCfg.fixed Fixes.all enc ver evs)
   | ["read", ver, h] => (s, readReply ver h)
+  | "filter" :: amount :: evs => (s, filterReply amount evs)
   | ["repairc", d] => (s, match unitsOfHex d with | some u => hexOfUnits (repairComment u) | none => "bad")
   | ["repairp", d] => (s, match unitsOfHex d with | some u => hexOfUnits (repairPI u) | none => "bad")
   | "doc" :: _ :: _ => (s, "skip")
